@@ -1,7 +1,7 @@
 (* Extraction of the executable model to OCaml (ExtrOcamlBasic only; N, Z, positive, nat stay datatypes). *)
 Require Extraction.
 Require Import ExtrOcamlBasic.
-From DictIO Require Import Chars Str Value Scalar KeyPath SDict Layout Lexer TokParser Reader Expr.
+From DictIO Require Import Chars Str Value Scalar KeyPath SDict Layout Lexer TokParser Reader Expr Cli.
 Extraction Blacklist String List Nat Bool Str.
 Cd "../ocaml/extracted".
 Separate Extraction
@@ -15,5 +15,6 @@ Separate Extraction
   Layout.to_string_plain Layout.foam_to_string_plain Layout.to_string_sd Layout.foam_to_string_sd
   Lexer.lex TokParser.parse_tokens TokParser.parse_string TokParser.levels
   Reader.read_plain Reader.json_parse Reader.norm_path
-  Expr.variables_of Expr.resolve_reference Expr.subst_refs Expr.py_str_tree.
+  Expr.variables_of Expr.resolve_reference Expr.subst_refs Expr.py_str_tree
+  Cli.cli_kwargs Cli.validate_scope Cli.target_file_name.
 Cd "../../coq".
